@@ -9,7 +9,7 @@
 EXTENDS FPSlices, Json, TLC
 
 StepText(s) == CASE s = "tail" -> ".tail()" [] s = "skip2" -> ".skip(2)" [] s = "take1" -> ".take(1)" [] s = "select" -> ".select($this)"
-                 [] OTHER -> ""
+                 [] s = "excl" -> ".exclude(%two)" [] OTHER -> ""
 RECURSIVE PipeText(_, _)
 PipeText(o, k) ==   \* text of steps 1..k applied to %e; a concat wraps what precedes it
   IF k = 0 THEN "%e"
